@@ -376,49 +376,101 @@ var epochSuffix = regexp.MustCompile(`_e(\d+)$`)
 // right after a havoc) points to an object that existed then, so it cannot alias anything
 // allocated later. raw is (select ARR addr) with ARR a chain of stores over a base array.
 func (st *State) assumeBaseAge(raw string, s Sort) {
-	if s != SRef && s != SSlice && s != SIface {
-		return
+	if f := st.baseAgeFact(raw, s, false); f != "" {
+		st.assume(f)
 	}
-	if !strings.HasPrefix(raw, "(select ") {
-		return
-	}
-	a := splitTop(raw[8 : len(raw)-1])
-	if len(a) != 2 {
-		return
-	}
-	arr := a[0]
-	n := 0
+}
+
+// stripStores peels (store X a v) wrappers off an array term.
+func stripStores(arr string) (string, bool) {
 	for strings.HasPrefix(arr, "(store ") {
 		b := splitTop(arr[7 : len(arr)-1])
 		if len(b) != 3 {
-			return
+			return "", false
 		}
 		arr = b[0]
-		n++
 	}
-	if strings.ContainsAny(arr, "( ") {
-		return // not a base array
+	return arr, true
+}
+
+// baseAgeFact: see assumeBaseAge. raw is (select ARR addr) for fields, or
+// (select (select ELEMS ref) idx) for slice/array elements. With always, the fact is
+// produced even when the base heap is the current one (specification-level reads carry
+// no validity assumption of their own).
+func (st *State) baseAgeFact(raw string, s Sort, always bool) string {
+	if s != SRef && s != SSlice && s != SIface {
+		return ""
+	}
+	if strings.HasPrefix(raw, "(ite ") {
+		// a map lookup: (ite present (select ...) zero)
+		p := splitTop(raw[5 : len(raw)-1])
+		if len(p) != 3 {
+			return ""
+		}
+		fa, fb := st.baseAgeFact(p[1], s, always), st.baseAgeFact(p[2], s, always)
+		if fa == "" && fb == "" {
+			return ""
+		}
+		if fa == "" {
+			fa = "true"
+		}
+		if fb == "" {
+			fb = "true"
+		}
+		return app("ite", p[0], fa, fb)
+	}
+	if !strings.HasPrefix(raw, "(select ") {
+		return ""
+	}
+	a := splitTop(raw[8 : len(raw)-1])
+	if len(a) != 2 {
+		return ""
+	}
+	arr, ok := stripStores(a[0])
+	if !ok {
+		return ""
+	}
+	var r string
+	owner := a[1] // the address read: only objects that existed then are covered
+	if strings.HasPrefix(arr, "(select ") {
+		// element of a slice: (select (select ELEMS ref) idx)
+		in := splitTop(arr[8 : len(arr)-1])
+		if len(in) != 2 {
+			return ""
+		}
+		base, ok := stripStores(in[0])
+		if !ok || strings.ContainsAny(base, "( ") {
+			return ""
+		}
+		arr = base
+		owner = in[1]
+		r = app("select", app("select", base, in[1]), a[1])
+	} else {
+		if strings.ContainsAny(arr, "( ") {
+			return "" // not a base array
+		}
+		r = app("select", arr, a[1])
 	}
 	m := epochSuffix.FindStringSubmatch(strings.Trim(arr, "|"))
 	if m == nil {
-		return
+		return ""
 	}
 	ep, _ := strconv.Atoi(m[1])
 	top := st.allocTop0
 	if ep != 0 {
 		top = st.epochTop[ep]
 	}
-	if top == "" || top == st.allocTop {
-		return
+	if top == "" || (top == st.allocTop && !always) {
+		return ""
 	}
-	r := app("select", arr, a[1])
 	switch s {
 	case SSlice:
 		r = app("s_ref", r)
 	case SIface:
 		r = app("i_ref", r)
 	}
-	st.assume(app("<", app("rid", r), top))
+	// (an object allocated later, e.g. by a callee, may well hold later references)
+	return imp(app("<", rootID(owner), top), and(app("<", app("rid", r), top), app(">=", app("rid", r), "0")))
 }
 
 func (st *State) assumeWF(v Value) {
